@@ -167,6 +167,10 @@ func numCorpus() []numCorpusEntry {
 		add(op, pf("0.1"), fl(0.1), "512-bit 0.1 vs float64 0.1")
 		add(op, fl(1.00000000001), pf("1.00000000001"), "F-47 pair")
 		add(op, n(3), pf("3"), "same integer, other precision")
+		add(op, fl(0.1), cty.NumberVal(new(big.Float).SetPrec(512).SetFloat64(0.1)), "KNOWN same fraction at 53 and 512 bits (Equals is False)")
+		add(op, cty.NumberVal(new(big.Float).SetPrec(512).SetFloat64(0.0005032122135162354)), fl(0.0005032122135162354), "KNOWN same fraction at 512 and 53 bits")
+		add(op, fl(0.1).Multiply(n(1)), fl(0.1), "KNOWN x*1 vs x: same value at 64 and 53 bits")
+		add(op, fl(0.5), pf("0.5"), "same short fraction at 53 and 512 bits (Equals is True)")
 		add(op, n(math.MaxInt64), cty.NumberUIntVal(1<<63), "2^63-1 vs 2^63")
 		add(op, fl(float64(1<<62)*2), n(math.MaxInt64), "2^63 (float64) vs MaxInt64")
 		add(op, pf("0.123456789049999"), pf("0.1234567890500001"), "neighbours around the 10-digit boundary")
